@@ -101,6 +101,7 @@ pub fn fire(c: Cid, widx: usize, by_value: bool, ctx: FireCtx) {
             FireCtx::MidPoll(_) => w.st.fires_midpoll += 1,
             FireCtx::AfterDrop => w.st.fires_after_drop += 1,
             FireCtx::SelfNow => w.st.fires_selfnow += 1,
+            FireCtx::InDrop(_) => w.st.fires_in_drop += 1,
         }
         w.ev(Ev::Fire { c, widx, latest, by_value, ctx });
         w.ch[c].wakers[widx].clone()
@@ -394,18 +395,28 @@ pub fn leaf_finish(id: Cid, r: Res) {
 }
 
 fn mark_dropped(id: Cid) {
-    w(|w| {
+    let target = w(|w| {
         w.ch[id].dropped += 1;
         if w.ch[id].dropped > 1 {
             w.violate(&["C02"], format!("child {id} dropped twice"));
         }
         w.ev(Ev::DropChild(id));
-        if let Some(slot) = w.ch[id].slot {
-            if w.live_slot.get(&slot) == Some(&id) {
-                // engines B keep live_slot in sync themselves; this only covers drop of the group
+        // a destructor that wakes somebody (its own stale waker or a sibling's latest one)
+        if w.ch[id].wake_on_drop && w.ch[id].dropped == 1 {
+            let with: Vec<Cid> = w.ch.iter().enumerate().filter(|(_, c)| !c.wakers.is_empty() && matches!(c.kind, Kind::LeafFut | Kind::LeafStr)).map(|(i, _)| i).collect();
+            if with.is_empty() {
+                None
+            } else {
+                let c = with[w.below(with.len())];
+                Some((c, w.ch[c].wakers.len() - 1))
             }
+        } else {
+            None
         }
-    })
+    });
+    if let Some((c, i)) = target {
+        fire(c, i, false, FireCtx::InDrop(id));
+    }
 }
 
 // ------------------------------------------------------------------------------------------------
